@@ -99,6 +99,10 @@ def parse_trace(path, cache_dir):
                     a, b = unhex(q[0]), unhex(q[-1])
                     if a.startswith(cache_dir) or b.startswith(cache_dir):
                         ev.append((ts, pid, "rename", (a, b)))
+                        # descriptors that were opened under the old name now write to the new one
+                        for k_ in list(fds):
+                            if fds[k_] == a:
+                                fds[k_] = b
             elif name in ("unlink", "unlinkat") and ret == 0:
                 q = re.findall(r'"((?:\\x[0-9a-f]{2})*)"', args)
                 if q and unhex(q[-1]).startswith(cache_dir):
@@ -171,6 +175,9 @@ def setup(ctx):
                 for b_ in nl[:: max(1, len(nl) // 40)]:
                     offs |= {max(0, b_ - 3), max(0, b_ - 1), b_, min(len(data), b_ + 1), min(len(data), b_ + 3)}
                 offs |= set(int(x) for x in rng.integers(0, len(data) + 1, size=100))
+                # every offset inside the first and the last rows of each write: a cut inside the
+                # very last number leaves a file of the right shape with one wrong value
+                offs |= set(range(0, min(len(data), 80) + 1)) | set(range(max(0, len(data) - 80), len(data) + 1))
                 offs = sorted(offs)
             for c in offs:
                 s2 = dict(st)
